@@ -589,12 +589,13 @@ class NullableRet(Ty):
     in_param = False
     in_field = False
 
-    def __init__(self, inner):
+    def __init__(self, inner, spelling="std"):
         self.inner = inner
+        self.spelling = spelling
         self.lifetime = inner.lifetime
 
     def rust(self, pos="ret"):
-        return "Option<%s>" % self.inner.rust(pos)
+        return "%s<%s>" % ("Option" if self.spelling == "std" else "DiplomatOption", self.inner.rust(pos))
 
     def values(self):
         return [None] + list(self.inner.values())
@@ -605,7 +606,8 @@ class NullableRet(Ty):
         return "some(%s)" % self.inner.dump(v)
 
     def rust_lit(self, v):
-        return "None" if v is None else "Some(%s)" % self.inner.rust_lit(v)
+        tail = "" if self.spelling == "std" else ".into()"
+        return ("None" if v is None else "Some(%s)" % self.inner.rust_lit(v)) + tail
 
     def c_dump(self, e):
         inner = 'printf("()");' if isinstance(self.inner, Unit) else self.inner.c_dump("(%s).ok" % e)
@@ -655,3 +657,22 @@ def special_structs():
     withneg = Struct("WNeg", [("e", ENN), ("z", Prim("i64")), ("c", Prim("DiplomatChar"))])
     outst = Struct("OutSt", [("b", OpaqueBox()), ("o", OpaqueBox(optional=True)), ("n", Prim("i32"))], out=True)
     return [ST, nest, nest2, withopt, withsl, withop, withneg, outst]
+
+
+def rust_ffi_type(t):
+    """Rust spelling of the FFI-level type of a return arm (None if not handled)"""
+    if isinstance(t, Unit):
+        return "()"
+    if isinstance(t, Prim):
+        return {"DiplomatChar": "u32", "DiplomatByte": "u8"}.get(t.name, t.name)
+    if isinstance(t, (Enum, Struct)):
+        return None if t.lifetime else "crate::ffi::" + t.name
+    if isinstance(t, OpaqueBox) and not t.optional:
+        return "Box<crate::ffi::Op>"
+    if isinstance(t, NullableRet):
+        i = rust_ffi_type(t.inner)
+        return None if i is None else "diplomat_runtime::DiplomatOption<%s>" % i
+    if isinstance(t, Result):
+        a, b = rust_ffi_type(t.ok), rust_ffi_type(t.err)
+        return None if a is None or b is None else "diplomat_runtime::DiplomatResult<%s, %s>" % (a, b)
+    return None
